@@ -162,13 +162,10 @@ func checkErrParallel(c *Check, p *Prog, name string, d *wfDesc) {
 				failRet = r
 			}
 			if bv, ok := r.Rets[0].BoolVal(); ok && bv {
-				lits, okc := S.literals(r.Guard)
 				has := false
-				if okc && he != nil && he.Sym != nil {
-					for _, lt := range lits {
-						if lt.Atom == S.SymTerm(he.Sym) && lt.Pos {
-							has = true
-						}
+				for _, ex := range posExits(S, d.Sum, r.Guard) {
+					if ex == he {
+						has = true
 					}
 				}
 				if !has {
